@@ -178,7 +178,7 @@ func init() {
 }
 
 var recordedHooks = map[string]bool{"continue.reset": true, "continue.fire": true, "continue.setup": true, "gate.fire": true,
-	"gate.done": true, "open.enter": true, "open.swap": true, "start.exit": true, "open.cloned": true}
+	"gate.done": true, "open.enter": true, "open.swap": true, "start.exit": true, "open.cloned": true, "open.retry": true}
 
 func NewTD(rec *Recorder, sc *Scenario) *TD {
 	d := &TD{rec: rec, sc: sc, rng: rand.New(rand.NewSource(sc.Seed)), counts: map[string]int{}, gateOps: map[string][]Op{},
@@ -215,6 +215,7 @@ func NewTD(rec *Recorder, sc *Scenario) *TD {
 	if sc.Via == "manager" {
 		d.mgr = pt.NewManager()
 		d.te = &mgrEngine{m: d.mgr, id: fmt.Sprintf("t%d", sc.Seed), cbs: pt.NewTableEngineCallbacks()}
+		rec.SetEngine(d.te)
 		for b := 0; b < 2; b++ { // bystander tables with players of their own
 			bt, _ := d.mgr.CreateTable(nil, nil, pt.TableSetting{TableID: fmt.Sprintf("by%d-%d", sc.Seed, b), Meta: pt.TableMeta{CompetitionID: "c", Rule: "default", Mode: "ct",
 				MaxDuration: 1000000, TableMaxSeatCount: 4, TableMinPlayerCount: 2, MinChipUnit: 1, ActionTime: 10}, Blind: pt.TableBlindState{Level: 1, SB: 1, BB: 2},
@@ -225,6 +226,7 @@ func NewTD(rec *Recorder, sc *Scenario) *TD {
 		}
 	} else {
 		d.te = pt.NewTableEngine(&pt.TableEngineOptions{GameContinueInterval: interval, OpenGameTimeout: 2}, pt.WithGameBackend(d.spy))
+		rec.SetEngine(d.te)
 	}
 	te := d.te
 	te.OnTableUpdated(func(t *pt.Table) {
@@ -605,6 +607,7 @@ func (d *TD) settle() string {
 		if p := d.takeParked(); p != "" {
 			d.serviceGate(p)
 			stableSince = time.Time{}
+			start, deadline = time.Now(), time.Now().Add(12*time.Second)
 			continue
 		}
 		d.hmu.Lock()
@@ -634,7 +637,7 @@ func (d *TD) settle() string {
 			stableSince = time.Time{}
 		}
 		lastEv = ev
-		if time.Now().After(deadline) || (reason == "gate-open-in-progress" && time.Since(start) > 1500*time.Millisecond) {
+		if time.Now().After(deadline) || (reason == "gate-open-in-progress" && time.Since(start) > 1500*time.Millisecond && !d.retryArmed()) {
 			d.stuck = true
 			a := mkArgs()
 			a.Note = reason
@@ -647,6 +650,18 @@ func (d *TD) settle() string {
 		}
 		time.Sleep(100 * time.Microsecond)
 	}
+}
+
+// retryArmed: the scenario waits for tableGameOpen's retry loop (3 s sleeps with the engine lock held)
+func (d *TD) retryArmed() bool {
+	d.hmu.Lock()
+	defer d.hmu.Unlock()
+	for k := range d.gateOps {
+		if strings.HasPrefix(k, "open.retry") {
+			return true
+		}
+	}
+	return false
 }
 
 func (d *TD) settleLite() {
